@@ -400,6 +400,8 @@ class Engine(object):
             return tuple(self.fresh_of_type(ex, x, "%s[%d]" % (name, i), env) for i, x in enumerate(inner))
         if t.startswith("list[") and t.endswith("]"):
             return self.fresh_slist(ex, t[5:-1], name)
+        if t == "emptydict":
+            return PDict({})
         if t == "intset":
             ctx.nfresh += 1
             return SIntSet(ctx.nfresh)
@@ -506,6 +508,13 @@ class Engine(object):
             return SBool(b)
         if name in ("lower", "upper") and n is None:
             return ex.engine.case_map_unbounded(ex, s, name)
+        if name == "split" and len(args) == 1 and args[0] == "-":
+            # a name-like string (first char not '-', then only '#'/'b') contains no '-': split gives [s]
+            nodash = z3.Or(s.length == 0,
+                           z3.And(s.at(0) != 45, ex.ctx.reg.cnt("other", s.arr, s.off + 1, s.off + s.length) == 0))
+            if ex.ctx.branch(nodash):
+                return PList([s])
+            raise Unsupported("str.split('-') of a string that may contain the separator")
         raise Unsupported("str.%s on a symbolic string" % name)
 
     def case_map_unbounded(self, ex, s, name):
@@ -641,7 +650,7 @@ class Engine(object):
         if not isinstance(o, Obj):
             raise Unsupported("havoc of non-object path " + path)
         ex.note_write(o)
-        o.fields[parts[-1]] = self.fresh_of_type(ex, t, path)
+        o.fields[parts[-1]] = self.fresh_of_type(ex, t, path, env)
 
     def modifies_objects(self, ex, contract, env):
         return []
@@ -691,6 +700,8 @@ class Engine(object):
             if a.startswith("periodic[") and isinstance(v, (PList, RepList)):
                 return True
             if a == "intset" and isinstance(v, (SIntSet, tuple, PList, PSet)):
+                return True
+            if a == "emptydict" and isinstance(v, PDict) and not v.d:
                 return True
             if a in self.classes and isinstance(v, Obj):
                 modname, _, cls = self.classes[a]["class"].rpartition(".")
